@@ -15,7 +15,20 @@ structure Mem where
   nrefused : Nat := 0
   libc     : Nat := 0
   fault    : Bool := false
+  liveLibc : Nat := 0        -- blocks currently owned through the C library allocator
+  lalloc   : Nat := 0        -- C-library allocations of the current operation
+  lfree    : Nat := 0        -- C-library releases of the current operation
   deriving Repr, DecidableEq
+
+/-- which allocator triple a container was given: the configured one (`*_new_conf` with the caller's
+`mem_alloc/mem_calloc/mem_free`) or the C library's `malloc/calloc/free` (the default constructors).
+A container copies the triple from its configuration and must use it for everything it allocates,
+including derived containers; a model function that mirrored a call to a default constructor inside
+the library (the repaired defects D10, L4, S1, Q3) would pass `.libc` here. -/
+inductive Triple where
+  | conf
+  | libc
+  deriving Repr, DecidableEq, Inhabited
 
 namespace Mem
 
@@ -31,12 +44,31 @@ def free (m : Mem) : Mem :=
   if m.live = 0 then { m with fault := true }
   else { m with live := m.live - 1, nfree := m.nfree + 1 }
 
+/-- one allocator call through the given triple.  C-library calls are never refused by the
+schedule (the harness only injects failures into the configured allocator) and are counted
+separately (`libc`, `lalloc`, `liveLibc`). -/
+def allocT (m : Mem) (t : Triple) : Bool × Mem :=
+  match t with
+  | .conf => m.alloc
+  | .libc => (true, { m with libc := m.libc + 1, lalloc := m.lalloc + 1, liveLibc := m.liveLibc + 1 })
+
+/-- one release through the given triple -/
+def freeT (m : Mem) (t : Triple) : Mem :=
+  match t with
+  | .conf => m.free
+  | .libc =>
+    if m.liveLibc = 0 then { m with fault := true }
+    else { m with libc := m.libc + 1, lfree := m.lfree + 1, liveLibc := m.liveLibc - 1 }
+
+@[simp] theorem allocT_conf (m : Mem) : m.allocT .conf = m.alloc := rfl
+@[simp] theorem freeT_conf (m : Mem) : m.freeT .conf = m.free := rfl
+
 /-- a checked access: faults when the condition is false -/
 def check (m : Mem) (b : Bool) : Mem := if b then m else { m with fault := true }
 
 /-- start of a new operation: event counters cleared, schedule installed -/
 def begin (m : Mem) (sched : List Bool) : Mem :=
-  { m with sched := sched, nalloc := 0, nfree := 0, nrefused := 0 }
+  { m with sched := sched, nalloc := 0, nfree := 0, nrefused := 0, lalloc := 0, lfree := 0 }
 
 @[simp] theorem check_true (m : Mem) : m.check true = m := rfl
 @[simp] theorem check_fault (m : Mem) (b : Bool) : (m.check b).fault = (m.fault || !b) := by
@@ -55,6 +87,15 @@ theorem alloc_fst_false (m : Mem) (h : m.alloc.1 = false) :
 theorem alloc_fst_true (m : Mem) (h : m.alloc.1 = true) :
     m.alloc.2.live = m.live + 1 ∧ m.alloc.2.fault = m.fault ∧ m.alloc.2.libc = m.libc := by
   unfold alloc at *; split <;> simp_all
+
+theorem alloc_keeps_libc (m : Mem) : m.alloc.2.libc = m.libc ∧ m.alloc.2.liveLibc = m.liveLibc := by
+  unfold alloc; split <;> exact ⟨rfl, rfl⟩
+
+theorem free_keeps_libc (m : Mem) : m.free.libc = m.libc ∧ m.free.liveLibc = m.liveLibc := by
+  unfold free; split <;> exact ⟨rfl, rfl⟩
+
+/-- a C-library allocation is visible in the `libc` event counter: the counter is not vacuous -/
+theorem allocT_libc_counts (m : Mem) : (m.allocT .libc).2.libc = m.libc + 1 := rfl
 
 /-- with an empty schedule the allocator never refuses -/
 theorem alloc_nil (m : Mem) (h : m.sched = []) : m.alloc.1 = true ∧ m.alloc.2.sched = [] := by
